@@ -43,6 +43,7 @@ func genC17(sc *Scenario) {
 		genFailModule(sc)
 	}
 	genPluginFiles(sc)
+	sc.StaleOut = simrt.Flip("c17.stale-output", 0.2)
 }
 
 var outputFileShapes = []string{"single.go", "nested/single.go", "../up.go", "../../up2.go", "../../../up3.go", "single.txt", "noext"}
@@ -156,6 +157,15 @@ func genFailModule(sc *Scenario) {
 	}
 }
 
+func isCore(core []string, pth string) bool {
+	for _, c := range core {
+		if cleanRel(c) == cleanRel(pth) {
+			return true
+		}
+	}
+	return false
+}
+
 // genPluginFiles draws the paths the plugins answer with.
 func genPluginFiles(sc *Scenario) {
 	core := append(corePaths(sc), apiPaths(sc)...)
@@ -180,6 +190,8 @@ func genPluginFiles(sc *Scenario) {
 			content := fmt.Sprintf("// %s wrote %q\npackage x\n", ps.ID(), pth)
 			if other, ok := contentOf[cleanRel(pth)]; ok && simrt.Flip("c17.same-content", 0.4) {
 				content = other // two sources, one path, identical bytes (a doc.go, an empty file): still two sources
+			} else if (ok || isCore(core, pth)) && simrt.Flip("c17.empty-content", 0.3) {
+				content = "" // a second source for a path, with nothing in it: a second source all the same
 			}
 			ps.Files = append(ps.Files, GenFile{Path: pth, Content: content, Dyn: dyn, Base: path.Base(pth)})
 		}
@@ -514,8 +526,16 @@ func checkC17(res *world.Result, s *simrt.Sim, sc *Scenario, logs []*PlugLog, ho
 	}
 	// A source whose file comes out empty did not produce it: nothing may be written then.
 	if host.Err == nil {
+		scriptedEmpty := map[string]bool{} // files a scripted plugin was told to leave empty
+		for _, ps := range sc.Plugins {
+			for _, f := range ps.Files {
+				if f.Content == "" {
+					scriptedEmpty["out/"+cleanRel(f.Path)] = true
+				}
+			}
+		}
 		for _, d := range outChanged {
-			if p := d[1:]; d[0] != '-' && strings.HasSuffix(p, ".go") && after[p] == emptyHash {
+			if p := d[1:]; d[0] != '-' && strings.HasSuffix(p, ".go") && after[p] == emptyHash && !scriptedEmpty[p] {
 				res.Failf("C17/all-or-nothing", "the run succeeded and wrote files although one source produced nothing: %s is empty", p)
 			}
 		}
